@@ -178,11 +178,9 @@ impl ColumnMetrics {
                 // Advance until we find the tab just before the current
                 // position.
                 let mut new_pos = self.line_start_position(text, base);
-                loop {
-                    let next = self.next_position(text, new_pos)
+                while new_pos.byte != base.byte - TAB_LEN_UTF8 {
+                    new_pos = self.next_position(text, new_pos)
                         .expect("next position is guaranteed");
-                    new_pos = next;
-                    if new_pos.byte == base.byte - TAB_LEN_UTF8 { break }
                 }
 
                 
